@@ -24,7 +24,7 @@ def dispatch (ws : List String) : String :=
   | "relaccept" :: _ | "c05holds" :: _ => (Driver.SupReload.handle ws).getD "bad-op"
   | "c09holds" :: _ | "c10holds" :: _ | "c11holds" :: _ | "compseq" :: _
   | "known" :: "C09-F1" :: _ => (Driver.Comp.handle ws).getD "bad-op"
-  | "c08streamholds" :: _ | "known" :: "C12-F1" :: _ | "known" :: "C08-F1" :: _ | "c12holds" :: _ | "c13holds" :: _ | "c14holds" :: _ | "c08holds" :: _ | "httpseq" :: _ => (Driver.Http.handle ws).getD "bad-op"
+  | "c08streamholds" :: _ | "c12busyholds" :: _ | "known" :: "C12-F1" :: _ | "known" :: "C08-F1" :: _ | "c12holds" :: _ | "c13holds" :: _ | "c14holds" :: _ | "c08holds" :: _ | "httpseq" :: _ => (Driver.Http.handle ws).getD "bad-op"
   | "c16holds" :: _ | "clusterseq" :: _ | "knowncluster" :: _ => (Driver.Cluster.handle ws).getD "bad-op"
   | "known" :: "C16-F1" :: rest =>
     if rest.any (·.startsWith "maps=") then (Driver.Cluster.handle ("knowncluster" :: rest)).getD "bad-op"
